@@ -9,13 +9,21 @@
 (*                                                                         *)
 (* BEHAVIOUR.  The user writes a BUILD PROGRAM (script), one instruction   *)
 (* per constructor call:                                                   *)
-(*   mesh | const m | coef m | vcoef m | geo m | index      (terminals:    *)
-(*       read the current counter of their class and increment it)         *)
-(*   idx a i | sum a b | prod a b | zeromul a | cond a b c | var a         *)
+(*   mesh | const m | coef m | vcoef m | scoef m m' | geo m | index         *)
+(*       (terminals: read the current counter of their class and increment *)
+(*       it; scoef = coefficient on the mixed space over the               *)
+(*       MeshSequence([m, m']))                                            *)
+(*   idx a i | comp a k | sum a b | prod a b | zeromul a | cond a b c      *)
+(*   | var a                                                               *)
 (* Then a process with a PRIOR HISTORY runs it: Bump(K, n) creates and     *)
-(* discards n objects of class K (n from Offsets, every class at most      *)
-(* once), then one Step per constructor call executes the script against   *)
-(* the live counters, then Finish computes the signature.                  *)
+(* discards n objects of class K (every class at most once; n from        *)
+(* Offsets, or a PLACEMENT: n such that a digit boundary B of Boundaries   *)
+(* falls after the q-th object of class K the script itself creates, i.e.  *)
+(* the counter stands at B - q when the script starts -- over all classes  *)
+(* this ranges over the digit-length patterns of all numbers the reprs of  *)
+(* one program embed, while the scripts range over the creation orders),   *)
+(* then one Step per constructor call executes the script against the live *)
+(* counters, then Finish computes the signature.                           *)
 (* `sum`/`prod` order their operands with sorted_expr, i.e. with cmp_expr  *)
 (* AS CODED in ufl/sorting.py: type codes, then per-type terminal          *)
 (* comparators -- coefficients by count (numerically), labels and free     *)
@@ -53,6 +61,7 @@ CONSTANTS TC,          \* record: class name -> _ufl_typecode_ of the real class
           ComparatorOf,\* record [const, geo, zero] of "repr"/"numeric" (used when Comparator = "mixed")
           ZeroSig,     \* "raw" (as coded: repr of the Zero) | "renumbered" (intended)
           Offsets,     \* set of counter shifts, e.g. {0,1,8,9,10,90,98,99,100}
+          Boundaries,  \* set of digit boundaries (10, 100, ..) placed inside the objects a script creates
           BumpKinds,   \* the counters the prior history may shift
           MaxBumped,   \* at most this many counters get a non-zero shift in one behaviour
           MaxSteps,    \* length bound of the build program
@@ -64,22 +73,25 @@ Kinds == {"Index", "Coefficient", "Constant", "Label", "Mesh"}
 ----------------------------------------------------------------------------
 (* Terms.  One uniform record shape:                                       *)
 (*   k   "mesh" "index" (handles, not expressions)                         *)
-(*       "const" "coef" "geo" "mi" "zero" "label" (terminals) "op"         *)
+(*       "const" "coef" "geo" "mi" "fmi" "zero" "label" (terminals) "op"   *)
 (*   tc  _ufl_typecode_                                                    *)
 (*   n   count (const, coef, label, index) / ufl_id (mesh)                 *)
 (*   d   ufl_id of the mesh (const, coef, geo)                             *)
-(*   sh  0 scalar / 1 vector valued (coef)                                 *)
+(*   ds  ufl_ids of the component meshes (coef on a MeshSequence) / <<>>   *)
+(*   sh  0 scalar / 1 vector valued / 2 mixed over a MeshSequence (coef)   *)
 (*   ix  index counts (mi: entries, zero: free indices sorted by count)    *)
 (*   ops operands                                                          *)
 
-Blank == [k |-> "", tc |-> 0, n |-> 0, d |-> 0, sh |-> 0, ix |-> << >>, ops |-> << >>]
+Blank == [k |-> "", tc |-> 0, n |-> 0, d |-> 0, ds |-> << >>, sh |-> 0, ix |-> << >>, ops |-> << >>]
 
 MeshT(id)        == [Blank EXCEPT !.k = "mesh", !.n = id]
 IndexT(c)        == [Blank EXCEPT !.k = "index", !.n = c]
 Const(c, m)      == [Blank EXCEPT !.k = "const", !.tc = TC.Constant, !.n = c, !.d = m]
 Coef(c, m, s)    == [Blank EXCEPT !.k = "coef", !.tc = TC.Coefficient, !.n = c, !.d = m, !.sh = s]
+CoefSeq(c, ms)   == [Blank EXCEPT !.k = "coef", !.tc = TC.Coefficient, !.n = c, !.ds = ms, !.sh = 2]
 Geo(m)           == [Blank EXCEPT !.k = "geo", !.tc = TC.CellVolume, !.d = m]
 Mi(e)            == [Blank EXCEPT !.k = "mi", !.tc = TC.MultiIndex, !.ix = e]
+FMi(v)           == [Blank EXCEPT !.k = "fmi", !.tc = TC.MultiIndex, !.n = v]     \* (FixedIndex(v),)
 ZeroT(fi)        == [Blank EXCEPT !.k = "zero", !.tc = TC.Zero, !.ix = fi]
 Lab(c)           == [Blank EXCEPT !.k = "label", !.tc = TC.Label, !.n = c]
 Op(code, o)      == [Blank EXCEPT !.k = "op", !.tc = code, !.ops = o]
@@ -138,7 +150,9 @@ NumCmp(x, y) == IF x < y THEN -1 ELSE IF x > y THEN 1 ELSE 0
 TermCmp(x, y) ==
   CASE x.k = "coef"  -> NumCmp(x.n, y.n)                      \* _cmp_coefficient: counts
     [] x.k = "label" -> 0                                     \* _cmp_label
-    [] x.k = "mi"    -> NumCmp(Len(x.ix), Len(y.ix))          \* _cmp_multi_index: free indices never decide
+    [] x.k = "mi"    -> IF y.k = "fmi" THEN 1                  \* _cmp_multi_index: fixed before free,
+                        ELSE NumCmp(Len(x.ix), Len(y.ix))     \* free indices never decide
+    [] x.k = "fmi"   -> IF y.k = "fmi" THEN NumCmp(x.n, y.n) ELSE 0 - 1   \* fixed indices by value
     [] OTHER         -> IF ModeOf(x.k) = "repr"
                         THEN LexCmp(Repr(x), Repr(y))         \* _cmp_terminal_by_repr
                         ELSE LexCmp(Nums(x), Nums(y))
@@ -163,6 +177,7 @@ Sorted2(a, b) == IF Cmp(b, a) < 0 THEN <<b, a>> ELSE <<a, b>>
 (* [ty, fi, t]: ty "mesh"/"index"/"s" (scalar valued expr)/"v" (vector     *)
 (* valued expr), fi = set of free index counts, t = term.                  *)
 
+\* (comp: c is not a position but the component + 1)
 Ins(o, x, y, z) == [op |-> o, a |-> x, b |-> y, c |-> z]
 Entry(ty, fi, t) == [ty |-> ty, fi |-> fi, t |-> t]
 
@@ -191,9 +206,12 @@ Exec(st, i) ==
     [] i.op = "const" -> Put(Entry("s", {}, Const(C.Constant, A.t.n)), [C EXCEPT !.Constant = @ + 1])
     [] i.op = "coef"  -> Put(Entry("s", {}, Coef(C.Coefficient, A.t.n, 0)), [C EXCEPT !.Coefficient = @ + 1])
     [] i.op = "vcoef" -> Put(Entry("v", {}, Coef(C.Coefficient, A.t.n, 1)), [C EXCEPT !.Coefficient = @ + 1])
+    [] i.op = "scoef" -> Put(Entry("v", {}, CoefSeq(C.Coefficient, <<A.t.n, B.t.n>>)),
+                             [C EXCEPT !.Coefficient = @ + 1])
     [] i.op = "geo"   -> Put(Entry("s", {}, Geo(A.t.n)), C)
     [] i.op = "index" -> Put(Entry("index", {}, IndexT(C.Index)), [C EXCEPT !.Index = @ + 1])
     [] i.op = "idx"   -> Put(Entry("s", {B.t.n}, Op(TC.Indexed, <<A.t, Mi(<<B.t.n>>)>>)), C)
+    [] i.op = "comp"  -> Put(Entry("s", {}, Op(TC.Indexed, <<A.t, FMi(i.c - 1)>>)), C)       \* a[c - 1]
     [] i.op = "sum"   -> Put(Entry("s", A.fi, Op(TC.Sum, Sorted2(A.t, B.t))), C)
     [] i.op = "prod"  -> Put(Entry("s", (A.fi \cup B.fi) \ (A.fi \cap B.fi),
                                    WrapSums(Op(TC.Product, Sorted2(A.t, B.t)), SortedSeq(A.fi \cap B.fi))), C)
@@ -205,7 +223,7 @@ Exec(st, i) ==
 
 \* ---- which instructions are well formed (typing of the real constructors) ----
 Rank(o) == CASE o = "mesh" -> 1 [] o = "const" -> 2 [] o = "coef" -> 3 [] o = "vcoef" -> 4
-             [] o = "geo" -> 5 [] o = "index" -> 6 [] OTHER -> 7
+             [] o = "scoef" -> 5 [] o = "geo" -> 6 [] o = "index" -> 7 [] OTHER -> 8
 CountOps(p, o) == Cardinality({j \in 1..Len(p) : p[j].op = o})
 
 IsExpr(e)   == e.ty \in {"s", "v"}
@@ -223,7 +241,9 @@ WellFormed(S, p, i) ==
   /\ \A j \in 1..Len(p) : Rank(p[j].op) <= Rank(i.op)
   /\ CASE i.op = "mesh"  -> i.a = 0 /\ i.b = 0 /\ i.c = 0
        [] i.op \in {"const", "coef", "vcoef", "geo"} -> ok(i.a) /\ A.ty = "mesh" /\ i.b = 0 /\ i.c = 0
+       [] i.op = "scoef" -> ok(i.a) /\ ok(i.b) /\ i.c = 0 /\ A.ty = "mesh" /\ B.ty = "mesh" /\ i.a # i.b
        [] i.op = "index" -> i.a = 0 /\ i.b = 0 /\ i.c = 0
+       [] i.op = "comp"  -> ok(i.a) /\ i.b = 0 /\ i.c \in {1, 2} /\ A.ty = "v" /\ A.t.k = "coef"
        [] i.op = "idx"   -> ok(i.a) /\ ok(i.b) /\ i.c = 0 /\ A.ty = "v" /\ A.t.k = "coef" /\ B.ty = "index"
        \* a + b, a * b: the order in which the two operands are written matters only for ties of
        \* cmp_expr, and ties do not depend on counters: operands in store order
@@ -239,7 +259,7 @@ WellFormed(S, p, i) ==
 
 \* every created object is used by a later instruction (objects that are created and dropped only
 \* shift counters: that is what Bump does)
-Used(p, j) == \E q \in (j + 1)..Len(p) : p[q].a = j \/ p[q].b = j \/ p[q].c = j
+Used(p, j) == \E q \in (j + 1)..Len(p) : p[q].a = j \/ p[q].b = j \/ (p[q].c = j /\ p[q].op # "comp")
 NUnused(p) == Cardinality({j \in 1..Len(p) : ~Used(p, j)})
 Closed(S, p) ==
   /\ Len(S) > 0
@@ -247,13 +267,19 @@ Closed(S, p) ==
   /\ NUnused(p) = 1
 
 \* the counters a script reads
-UsesKind(p, K) ==
-  \E j \in 1..Len(p) :
-    CASE K = "Mesh"        -> p[j].op = "mesh"
-      [] K = "Constant"    -> p[j].op = "const"
-      [] K = "Coefficient" -> p[j].op \in {"coef", "vcoef"}
-      [] K = "Index"       -> p[j].op = "index"
-      [] K = "Label"       -> p[j].op = "var"
+Reads(o, K) ==
+    CASE K = "Mesh"        -> o = "mesh"
+      [] K = "Constant"    -> o = "const"
+      [] K = "Coefficient" -> o \in {"coef", "vcoef", "scoef"}
+      [] K = "Index"       -> o = "index"
+      [] K = "Label"       -> o = "var"
+UsesKind(p, K) == \E j \in 1..Len(p) : Reads(p[j].op, K)
+\* how many objects of class K one run of the script creates
+Created(p, K) == Cardinality({j \in 1..Len(p) : Reads(p[j].op, K)})
+\* placements: the counter of K stands at B - q when the script starts, so that its first q objects
+\* of class K get numbers below the digit boundary B and the others numbers from B on
+PlacedOffsets(p, K) ==
+  {n \in {B - q - Base[K] : B \in Boundaries, q \in 0..(Created(p, K) - 1)} : n > 0}
 
 ----------------------------------------------------------------------------
 (* The signature of  store[last] * dx(store[1])  as coded.                 *)
@@ -300,16 +326,21 @@ FormSig(t, dom) ==
       coefs   == {x.n : x \in {y \in terms : y.k = "coef"}}
       consts  == {x.n : x \in {y \in terms : y.k = "const"}}
       labels  == {x.n : x \in {y \in terms : y.k = "label"}}
-      others  == {x.d : x \in {y \in terms : y.k \in {"coef", "const", "geo"}}} \ {dom}
+      MeshesOf(x) == IF x.ds # << >> THEN {x.ds[j] : j \in 1..Len(x.ds)} ELSE {x.d}
+      \* (the component meshes of a MeshSequence count as domains of the integrand)
+      others  == UNION {MeshesOf(x) : x \in {y \in terms : y.k \in {"coef", "const", "geo"}}} \ {dom}
       \* Form._analyze_domains: integration domains first, then the others sorted by ufl_id
       DomNum(m) == IF m = dom THEN 0 ELSE 1 + RankIn(m, others)
       num     == IndexNumbering(TermOrder(t), << >>)
       Data(x) ==
         CASE x.k = "const" -> <<DomNum(x.d), RankIn(x.n, consts)>>
-          [] x.k = "coef"  -> <<RankIn(x.n, coefs), DomNum(x.d), x.sh>>
+          [] x.k = "coef"  -> IF x.ds # << >>       \* MeshSequence._ufl_signature_data_: renumbered components
+                              THEN <<RankIn(x.n, coefs)>> \o [j \in 1..Len(x.ds) |-> DomNum(x.ds[j])] \o <<x.sh>>
+                              ELSE <<RankIn(x.n, coefs), DomNum(x.d), x.sh>>
           [] x.k = "geo"   -> <<DomNum(x.d)>>
           [] x.k = "label" -> <<RankIn(x.n, labels)>>
           [] x.k = "mi"    -> [j \in 1..Len(x.ix) |-> NumberOf(x.ix[j], num)]
+          [] x.k = "fmi"   -> <<x.n>>
           [] x.k = "zero"  -> IF ZeroSig = "raw" THEN x.ix              \* repr(Zero): raw counts
                               ELSE SortedSeq({0 - NumberOf(x.ix[j], num) : j \in 1..Len(x.ix)})
       \* compute_expression_hashdata: terminal -> its data, operator -> (typecode, operand data...)
@@ -397,11 +428,12 @@ Finish ==
 Next == \/ \E o \in {"mesh", "index"} : Write(Ins(o, 0, 0, 0))
         \/ \E o \in {"const", "coef", "vcoef", "geo", "zeromul", "var"}, x \in 1..Len(store) :
               Write(Ins(o, x, 0, 0))
-        \/ \E o \in {"idx", "sum", "prod"}, x \in 1..Len(store), y \in 1..Len(store) :
+        \/ \E o \in {"scoef", "idx", "sum", "prod"}, x \in 1..Len(store), y \in 1..Len(store) :
               Write(Ins(o, x, y, 0))
         \/ \E x \in 1..Len(store), y \in 1..Len(store), z \in 1..Len(store) : Write(Ins("cond", x, y, z))
+        \/ \E x \in 1..Len(store), z \in {1, 2} : Write(Ins("comp", x, 0, z))
         \/ Close
-        \/ \E K \in Kinds, n \in Offsets : Bump(K, n)
+        \/ \E K \in Kinds : \E n \in Offsets \cup PlacedOffsets(prog, K) : Bump(K, n)
         \/ Start \/ Step \/ Finish
 
 Spec == Init /\ [][Next]_vars
